@@ -22,6 +22,12 @@ def _garbage_scripts(rng, n):
         for k in range(0, 5):
             out.append(("faults", [("net", "accept"), ("open",), ("adv", 8), ("peer", what), ("turn", k), ("close",), ("adv", 24), ("open",), ("adv", 8),
                                    ("peer", what), ("adv", 8), ("heal",)]))
+    # a console (or a noisy line) that produces nothing but bad input for a while: every single one is answered by a reconnection,
+    # and after the twelfth the client recovers exactly as after the first
+    for what in ("badcrc", "garbage", "badenum", "short"):
+        for n_bad in (5, 6, 8, 12):
+            for gap in (1, 4, 17):
+                out.append(("faults", [("net", "accept"), ("open",), ("adv", 8)] + [x for _ in range(n_bad) for x in (("peer", what), ("adv", gap))] + [("heal",)]))
     return out
 
 
